@@ -116,6 +116,7 @@ def run(ctx):
     ctx.rng.shuffle(names)
     names = names[: 500 if ctx.quick else 6000]
     n_eval, n_rel = 0, 0
+    n_rc_level = [0]
     for name in names:
         t = trees[name]
         rk = sorted({k for k in exprs.leaves(t) if exprs.kind(k) == "rc"})
@@ -144,6 +145,24 @@ def run(ctx):
                     ctx.fail(f"{name}|{kind_}|{exprs.show(t2)}|{sorted(rho.items())}", {"expression": name, "transformed": exprs.show(t2), "rc": rho},
                              f"{want}", f"{got}", f"oracle: {kind_} changed the requirement outcome / validity")
                     break
+        # the same relations on the outcome requirement_constraint_evaluation REPORTS (fulfilled, conditional) -- the mapping from the state of the root to
+        # the reported outcome is part of what "the requirement outcome" is
+        if n_rc_level[0] < (120 if ctx.quick else 2500):
+            n_rc_level[0] += 1
+            state_to_outcome = {"FULFILLED": (True, True), "NEUTRAL": (True, False), "UNFULFILLED": (False, True), "UNKNOWN": (None, None)}
+            for rho in rhos[:5]:
+                b = base[tuple(rho.items())]
+                if b[0] != "ok":
+                    continue
+                want = ("ok", state_to_outcome[b[1]])
+                for kind_, t2 in [("the expression itself", t)] + variants[:: max(1, len(variants) // 4)]:
+                    got = evalcorr.eval_rc_outcome(t2, rho)
+                    n_eval += 1
+                    if got != want:
+                        ctx.fail(f"{name}|reported|{kind_}|{exprs.show(t2)}|{sorted(rho.items())}", {"expression": name, "transformed": exprs.show(t2), "rc": rho, "level": "requirement_constraint_evaluation"},
+                                 f"{want} (the outcome the state {b[1]} of the untransformed expression stands for)", f"{got}",
+                                 f"oracle: {kind_}: the outcome reported by requirement_constraint_evaluation changed / does not follow the state")
+                        break
         # redundant brackets (through the parser): more of them, and only those the precedence needs
         for s2 in (bracketed(t, ctx.rng), minimal(t, ctx.rng)):
             try:
